@@ -126,3 +126,63 @@ theorem forwards_bound (e : Eng) (subs : List Key) (m : EMsg) :
   | event n => simp [esReceive]; exact List.length_filter_le _ _
 
 end HW.Engine
+
+namespace HW.Engine
+
+/-- event numbers of a stream, in stream order. -/
+def eventsOf : List EMsg → List Nat
+  | [] => []
+  | .event n :: ms => n :: eventsOf ms
+  | _ :: ms => eventsOf ms
+
+/-- what subscriber `k` is forwarded, in the order of forwarding. -/
+def forwardedTo (k : Key) (fw : List (Key × Nat)) : List Nat := (fw.filter (·.1 = k)).map (·.2)
+
+theorem forwardedTo_append (k : Key) (a b : List (Key × Nat)) :
+    forwardedTo k (a ++ b) = forwardedTo k a ++ forwardedTo k b := by
+  simp [forwardedTo, List.filter_append]
+
+theorem forwardedTo_map (k : Key) (l : List Key) (n : Nat) :
+    forwardedTo k (l.map (·, n)) = List.replicate (l.count k) n := by
+  induction l with
+  | nil => simp [forwardedTo]
+  | cons a l ih =>
+    by_cases h : a = k
+    · subst h
+      simp only [List.map_cons, forwardedTo, List.count_cons_self] at ih ⊢
+      simp [List.filter_cons, List.replicate_succ, ih]
+    · have hb : (a == k) = false := beq_false_of_ne h
+      simp only [List.map_cons, forwardedTo] at ih ⊢
+      simp [List.filter_cons, h, List.count_cons, hb, ih]
+
+theorem forwardedTo_event (e : Eng) (subs : List Key) (n : Nat) (k : Key) (h : subs.Nodup) :
+    forwardedTo k (esReceive e subs (.event n)).2 = [] ∨ forwardedTo k (esReceive e subs (.event n)).2 = [n] := by
+  simp only [esReceive]
+  rw [forwardedTo_map]
+  have hnd : (subs.filter (deliverable e)).Nodup := h.filter _
+  rw [count_nodup _ hnd]
+  split
+  · right; rfl
+  · left; rfl
+
+/-- events reach each subscriber in stream order, each at most once: what `k` is forwarded is a
+    sublist of the stream's events. -/
+theorem forwards_in_order (e : Eng) (subs : List Key) (ms : List EMsg) (k : Key) (h : subs.Nodup) :
+    (forwardedTo k (esRun e subs ms).2).Sublist (eventsOf ms) := by
+  induction ms generalizing subs with
+  | nil => simp [esRun, forwardedTo, eventsOf]
+  | cons m ms ih =>
+    simp only [esRun]
+    rw [forwardedTo_append]
+    have hnd := esReceive_nodup e subs m h
+    have ih' := ih (esReceive e subs m).1 hnd
+    cases m with
+    | sub k' => simpa [esReceive, forwardedTo, eventsOf] using ih'
+    | unsub k' => simpa [esReceive, forwardedTo, eventsOf] using ih'
+    | event n =>
+      simp only [eventsOf]
+      rcases forwardedTo_event e subs n k h with h1 | h1
+      · rw [h1]; simpa using List.Sublist.cons n ih'
+      · rw [h1]; simpa using List.Sublist.cons_cons n ih'
+
+end HW.Engine
